@@ -572,9 +572,9 @@ def compactRange (c : Cfg) (s : BState) (start stop : Bytes) (rev : Nat)
       match decodeRecs (iterate c.q store p.1 p.2 0) with
       | none => (acc.1, true)
       | some recs =>
-        let acts := workerActs { R := rev, compact := true, timeout := t, supportTTL := c.q.supportTTL,
-                                 eventsPfx := eventsPrefixOf c } recs
-        (runDeletes mask { acc.1 with lastFailed := [] } acts, acc.2 || hasPanic acts)) init
+        let res := passRun { R := rev, compact := true, timeout := t, supportTTL := c.q.supportTTL,
+                             eventsPfx := eventsPrefixOf c } mask acc.1 recs
+        (res.2, acc.2 || hasPanic res.1)) init
     ({ s with marks := marks, store := cs.store }, cs.calls, pan)
 
 /-- `Backend.Compact`. The mask indexes delete calls across the whole compaction. -/
@@ -619,9 +619,8 @@ def compactTrace (c : Cfg) (s : BState) (rev : Nat) (mask : Nat → DelOutcome) 
         match decodeRecs (iterate c.q store p.1 p.2 0) with
         | none => st
         | some recs =>
-          let acts := workerActs { R := rev, compact := true, timeout := t, supportTTL := c.q.supportTTL,
-                                   eventsPfx := eventsPrefixOf c } recs
-          runDeletes mask { st with lastFailed := [] } acts) init
+          (passRun { R := rev, compact := true, timeout := t, supportTTL := c.q.supportTTL,
+                     eventsPfx := eventsPrefixOf c } mask st recs).2) init
       ({ s with marks := marks, store := cs.store }, cs.calls, acc.2.2 ++ cs.trace)
   let stored := s.store.get (compactKeyOf c)
   let store0 :=
